@@ -1,7 +1,7 @@
 (* C08 -- concurrent Run calls on one Engine: race-free lock protocol, linearizable type cache, per-run confinement.
    Props file: statements only; proofs are in RG.Locks.* (generic) and Inst_Locks.v (about the regenerated tables). *)
 From Coq Require Import List NArith String Bool.
-From RG.Locks Require Import Model Sites Cache Confine.
+From RG.Locks Require Import Model Sites Cache Confine Progress.
 From RGW Require Import Gen_Locks Inst_Locks.
 Import ListNotations.
 Local Open Scope N_scope.
@@ -24,6 +24,22 @@ Theorem run_paths_race_free :
   forall s, reachable (init progs) s -> ~ race s.
 Proof. exact Inst_Locks.run_paths_race_free. Qed.
 Print Assumptions run_paths_race_free.
+
+(* generic: ordered + disciplined programs never deadlock on their own locks *)
+Theorem ordered_implies_progress :
+  forall (guard : field -> fclass) (rank : mutex -> nat) (progs : list (list op)),
+    disciplined guard progs = true -> all_ordered rank progs = true ->
+    forall s, reachable (init progs) s ->
+      (exists t, In t (threads s) /\ ~ finished t) -> exists s', step s s'.
+Proof. exact Progress.ordered_implies_progress. Qed.
+Print Assumptions ordered_implies_progress.
+
+Theorem run_paths_deadlock_free :
+  forall progs, incl progs run_progs ->
+  forall s, reachable (init progs) s ->
+    (exists t, In t (threads s) /\ ~ finished t) -> exists s', step s s'.
+Proof. exact Inst_Locks.run_paths_deadlock_free. Qed.
+Print Assumptions run_paths_deadlock_free.
 
 Theorem findtype_linearizable :
   forall (key val : Type) (key_eqb : key -> key -> bool),
@@ -90,6 +106,11 @@ Proof.
     + apply (step_at [_] _ []). apply ts_rlock. reflexivity.
   - exists [], (T [] [Write 0]), [], (T [(7, MR)] [Read 0; RUnlock 7]), [], 0, true, false. cbn. repeat split; auto.
 Qed.
+
+(* a lock-order inversion deadlocks in this model (and is rejected by the order check) *)
+Example inversion_rejected :
+  all_ordered (fun m => N.to_nat m) [[Lock 1; Lock 2; Unlock 2; Unlock 1]; [Lock 2; Lock 1; Unlock 1; Unlock 2]] = false.
+Proof. reflexivity. Qed.
 
 (* the cache protocol: a concrete oracle, two concurrent misses of one key *)
 Example cache_example :
